@@ -43,6 +43,123 @@ PRC2 = _prc(2)
 PRC3 = _prc(3)
 
 
+def _ext_transfer_pair(ex, st, args, kwargs, node):
+    """TransferBytes(lo, hi): the pair itself"""
+    from pyvc.spec import TupV
+    return TupV(list(args), "tuple")
+
+
+def _assume_group_maxima(ex, st, val):
+    """sum of the per-group maxima of a non-negative sequence split into consecutive groups: between 0 and the sum of the
+    sequence (each group's maximum is one of its members; validated on the running library by
+    PartialReduce.transfer_bytes[group-maxima])"""
+    import z3
+    chunks = st.env["chunks"]
+    g = S.as_int(val)
+    total = S._i(S.ssum(chunks))
+    st.pc.append(z3.And(g >= 0, g <= total))
+    # proof step for the estimate: itemsize * kept <= itemsize * total (lemma mul_mono, proved once per run)
+    from pyvc import lemmas as L
+    item = S.as_int(st.env["x"].get("dtype").get("itemsize"))
+    st.pc.append(L.mul_mono(item, g, total))
+    if "mul_mono" not in ex.lemmas_used:
+        ex.lemmas_used.append("mul_mono")
+
+
+@contract(f"{RED}::PartialReduce.transfer_bytes", spec="r1", props=["C27"])
+class partial_reduce_transfer:
+    """one partial-reduction layer over a rank-1 input: the estimate is (nbytes - itemsize * kept, nbytes) with `kept` the
+    elements of the largest block of each group, so 0 <= min <= max -- both terms measured in bytes of the INPUT array
+    (a node whose own dtype is wider than its input's must not scale `kept` by the output itemsize)"""
+    params = {"self": "obj:PR"}
+    result = "tup:real,real"
+    fields = {"PR": {"array": "obj:Arr", "split_every": "map:int", "dtype": "obj:DType"},
+              "Arr": {"chunks": "tup:seq", "nbytes": "int", "dtype": "obj:DType"}, "DType": {"itemsize": "int"}}
+    externals = {"TransferBytes": _ext_transfer_pair}
+    havoc = {"sum((max(group) for group in partition_all(self.split_every[i], chunks)))": "int"}
+    havoc_assume = {"sum((max(group) for group in partition_all(self.split_every[i], chunks)))": _assume_group_maxima}
+
+    def requires(self):
+        x = self.get("array")
+        c = S.item(x.get("chunks"), 0)
+        item = x.get("dtype").get("itemsize")
+        return S.And(S.chunking(c), item >= 1, self.get("dtype").get("itemsize") >= 1,
+                     x.get("nbytes") == item * S.ssum(c))
+
+    def facts(self):
+        c = S.item(self.get("array").get("chunks"), 0)
+        return [("prefix_nonneg", c)]
+
+    def _after_x(v):
+        # proof step: itemsize * total is non-negative and is the same number read as a product of reals
+        c = S.item(v.x.get("chunks"), 0)
+        item = v.x.get("dtype").get("itemsize")
+        return {"__hints__": {"bytes-of-the-whole-axis": ("lemma", "mul_mono", item, S.ssum(c), S.ssum(c))}}
+
+    after = {"x = self.array": ((), _after_x)}
+
+    def ensures(result, self):
+        from pyvc.spec import NanV
+        lo, hi = result.items
+        if isinstance(lo, NanV) or isinstance(hi, NanV):
+            return {"nan-only-when-unknown": False}
+        num = lambda v: v.t if hasattr(v, "t") else S.as_int(v)
+        return {"0<=min<=max": S.And(0 <= num(lo), num(lo) <= num(hi))}
+
+    def call(fn, self):
+        import numpy as np
+        import dask_array as da
+        from dask_array.reductions._reduction import PartialReduce
+        c = tuple(int(v) for v in self.get("array").get("chunks")[0])
+        sizes = {1: "i1", 2: "i2", 4: "i4", 8: "i8"}
+        xi, oi = self.get("array").get("dtype").get("itemsize"), self.get("dtype").get("itemsize")
+        if xi not in sizes or oi not in sizes:
+            raise RuntimeError("no NumPy integer dtype of that itemsize")
+        x = da.ones((sum(c),), chunks=(c,), dtype=sizes[xi])
+        node = PartialReduce(x.expr, np.sum, dict(self.get("split_every")), True, dtype=np.dtype(sizes[oi]), name="sum-partial")
+        return tuple(node.transfer_bytes)
+
+
+@contract(f"{RED}::PartialReduce.transfer_bytes", spec="group-maxima", props=["C27"])
+class partial_reduce_transfer_bounded:
+    """PartialReduce nodes built directly (as _tree_reduce callers with their own intermediates do), input and node dtypes
+    of every width pairing: 0 <= min <= max, and min is nbytes minus the bytes of each group's largest block"""
+    bounded_only = True
+    params = {"chunks": "const", "k": "const", "xdt": "const", "odt": "const"}
+    scope = "rank-1 inputs, all chunkings of <= 7 elements (quick) / 9, fan-in 1..4, dtype pairs i1/i4/i8/f4/f8"
+
+    def real():
+        return lambda: None
+
+    def call(fn, chunks, k, xdt, odt):
+        import numpy as np
+        import dask_array as da
+        from dask_array.reductions._reduction import PartialReduce
+        x = da.ones((sum(chunks),), chunks=(chunks,), dtype=xdt)
+        node = PartialReduce(x.expr, np.sum, {0: k}, True, dtype=np.dtype(odt), name="sum-partial")
+        return tuple(node.transfer_bytes), x.nbytes, x.dtype.itemsize
+
+    def requires(chunks, k, xdt, odt):
+        return True
+
+    def ensures(result, chunks, k, xdt, odt):
+        (lo, hi), nbytes, item = result
+        groups = [chunks[i:i + k] for i in range(0, len(chunks), k)]
+        kept = sum(max(g) for g in groups)
+        return {"0<=min<=max": 0 <= lo <= hi, "max-is-the-input-bytes": hi == nbytes,
+                "min-keeps-the-largest-block-of-each-group": lo == nbytes - item * kept,
+                "group-maxima-bounded-by-total": 0 <= kept <= sum(chunks)}
+
+    def domain(tier, rng):
+        from contracts.slicing import chunkings
+        for n, c in chunkings(7 if tier == "quick" else 9):
+            if not c:
+                continue
+            for k in (1, 2, 3, 4):
+                for xdt, odt in (("i1", "i8"), ("f4", "f8"), ("i8", "i8"), ("i8", "i1"), ("i4", "f8")):
+                    yield {"chunks": c, "k": k, "xdt": xdt, "odt": odt}
+
+
 @contract(f"{RED}::partition_all", spec="model", props=["C18"])
 class partition_all_model:
     """validation of the engine's model of toolz.partition_all (assumption A2) on the running library: k >= 1 gives
